@@ -284,6 +284,7 @@ class CallMixin:
         gv = V(gs, gs.fresh('ghost_' + gn))
         self.env[gn] = gv
         saved_env[gn] = gv        # ghost results are visible to the caller's specs
+        self.path_ghosts[gn] = gv
       if c.raises_ensures:
         names = list(c.raises_ensures)
         k = self.dec.choose(1 + len(names))
